@@ -7,6 +7,7 @@
   produce it).  Grid-specific style (templates, placements) lives with the grid models.
 -/
 import TaffyVerif.Model.Geometry
+import TaffyVerif.Model.GridTypes
 
 inductive Display where
   | block | flex | grid | none
@@ -90,6 +91,8 @@ structure Style (α : Type) where
   flexBasis : Dimension α
   flexGrow : α
   flexShrink : α
+  /-- the grid fields (templates, auto tracks, auto flow, the child's placement); `Style::DEFAULT`'s values unless given -/
+  grid : GridExt α := {}
 deriving Repr, BEq, DecidableEq, Inhabited
 
 namespace Overflow
